@@ -208,6 +208,10 @@ type eng struct {
 	maxSize int64
 	prev    snapshot
 	tainted bool
+	implTags map[string]string // tag served by the code -> (size, mtime) of the version it was served for
+	implName []string          // per version (parallel to names): the tag the code serves for it, whatever its format
+	prevImpl string
+	clash    string
 	abas    int
 	// views after the last op, for the generator
 	live     map[string]*token.Stateful
@@ -256,6 +260,10 @@ func (e *eng) Reset() {
 	e.maxSize = 0
 	e.prev = snapshot{}
 	e.tainted = false
+	e.implTags = map[string]string{}
+	e.implName = nil
+	e.prevImpl = ""
+	e.clash = ""
 	e.live = map[string]*token.Stateful{}
 	e.liveOK = true
 	token.SetStatefulFilename(e.file)
@@ -283,6 +291,9 @@ func (e *eng) tag(s string) string {
 		return ""
 	case s == "cur":
 		if e.prev.exists {
+			if e.prevImpl != "" {
+				return e.prevImpl
+			}
 			return e.prev.tag
 		}
 		return ""
@@ -291,6 +302,9 @@ func (e *eng) tag(s string) string {
 	case strings.HasPrefix(s, "v"):
 		k := common.Atoi(s[1:])
 		if k >= 1 && k <= len(e.names) {
+			if k <= len(e.implName) && e.implName[k-1] != "" {
+				return e.implName[k-1]
+			}
 			return e.names[k-1]
 		}
 		return fmt.Sprintf("\"unknown-%d\"", k)
@@ -355,6 +369,23 @@ func (e *eng) observe() string {
 	for _, s := range la {
 		e.live[s.Token] = s
 	}
+	// whatever its format, the tag the code serves identifies one version: two versions of the file that differ in
+	// size or modification time must not be given the same tag
+	if ferr == nil && fetag != "" && snap.exists {
+		if prior, ok := e.implTags[fetag]; ok && prior != snap.tag && e.clash == "" {
+			e.clash = fmt.Sprintf("tagclash:%s:%s:%s", strings.Trim(fetag, "\""), strings.Trim(prior, "\""), strings.Trim(snap.tag, "\""))
+		}
+		e.implTags[fetag] = snap.tag
+		if k, ok := e.vers[snap.tag]; ok {
+			for len(e.implName) < k {
+				e.implName = append(e.implName, "")
+			}
+			e.implName[k-1] = fetag
+		}
+		e.prevImpl = fetag
+	} else {
+		e.prevImpl = ""
+	}
 	fe, le := e.canon(fetag), e.canon(letag)
 	if ferr != nil {
 		fe = "err"
@@ -407,6 +438,13 @@ func (e *eng) Exec(op []string) string {
 	}
 	res := e.exec1(op)
 	obs := e.observe()
+	if e.clash != "" {
+		c := e.clash
+		e.clash = "reported"
+		if c != "reported" {
+			return c
+		}
+	}
 	if e.tainted {
 		return "aba"
 	}
@@ -426,6 +464,20 @@ func (e *eng) exec1(op []string) string {
 		var err error
 		withFault(op[3], func() { err = token.Delete(unq(op[1]), etag) })
 		return errName(err)
+	case "tick": // wait until the file system clock has moved on: the next version gets a later modification time
+		deadline := time.Now().Add(2 * time.Second)
+		probe := filepath.Join(e.dir, "tick-probe")
+		for time.Now().Before(deadline) {
+			os.WriteFile(probe, []byte("x"), 0600)
+			pi, err1 := os.Stat(probe)
+			fi, err2 := os.Stat(e.file)
+			if err1 == nil && (err2 != nil || pi.ModTime().After(fi.ModTime())) {
+				break
+			}
+			time.Sleep(time.Millisecond)
+		}
+		os.Remove(probe)
+		return "ok"
 	case "get":
 		s, etag, err := token.Get(unq(op[1]))
 		if err != nil {
@@ -766,6 +818,26 @@ func gen(t *common.Trace, ce common.Engine, r *common.Rng, thorough bool) {
 				}
 				res := do("race %d %s %s %s", n, kind, tk, etag)
 				t.Count(fmt.Sprintf("race:wins=%d", strings.Count(res, "ok")))
+			}
+		}
+		if !e.tainted && e.liveOK && r.Intn(3) == 0 {
+			// two versions of the SAME size written at different times (the property: successive versions differ in size
+			// OR modification time): the tag of the first must not be accepted once the second exists
+			tk := tok{id: "z", group: "g", exp: i64(3600)}
+			tk.pad = e.padFor(tk, r, 0)
+			if do("update %s cur none", tk) == "ok" && !e.tainted {
+				va := len(e.names)
+				do("tick")
+				tk.exp = i64(3601)
+				if do("update %s cur none", tk) == "ok" && !e.tainted && len(e.names) > va {
+					t.Count("same-size-versions")
+					tk.exp = i64(3602)
+					if r.Bool() {
+						do("update %s v%d none", tk, va)
+					} else {
+						do("delete %s v%d none", q("z"), va)
+					}
+				}
 			}
 		}
 		if e.tainted {
